@@ -6,6 +6,8 @@ import Sourcer.Wire
     (core (bytes 0|1) (ign k|-1) (fuel n) (rx R…) (rules E…) (entry E) (cases (p c c c …) …))
         → for every case "<gen> <peg>" separated by " ; "
     (flagsof E)                           → as/cps bits the table assigns to E
+    (peq A B)                             → Python `A == B`, hashable(A), model hashes equal
+    (replace O (i V) …)                   → `O._replace(field_i=V, …)`
     (machine (start k) (fuel n) (bodies (k FPROG) …))  → event trace of the `_run` model
     (prepare (rule name ign E) …)         → the prepared program (model of the translator's front half)
 -/
@@ -88,6 +90,21 @@ def handle (st : St) (line : String) : St × String :=
     match handleCore st xs with
     | some out => (st, out)
     | none => (st, "error bad-core-request")
+  | some (.list [.atom "peq", a, b]) =>
+    match decodePV a, decodePV b with
+    | some a, some b =>
+      (st, s!"{if Obj.peq a b then 1 else 0} {if Obj.hashable a then 1 else 0} {if Obj.H demoHash a == Obj.H demoHash b then 1 else 0}")
+    | _, _ => (st, "error bad-peq-request")
+  | some (.list (.atom "replace" :: o :: kws)) =>
+    let r := do
+      let o ← decodePV o
+      let kws ← kws.mapM fun kw => match kw with
+        | .list [i, v] => do pure ((← i.nat?), (← decodePV v))
+        | _ => none
+      pure (printPV (Obj.replace o fun i => (kws.find? (·.1 == i)).map (·.2)))
+    match r with
+    | some out => (st, out)
+    | none => (st, "error bad-replace-request")
   | some (.list (.atom "machine" :: xs)) =>
     let r := do
       let k0 ← (← (← field "start" xs).head?).nat?
